@@ -120,8 +120,13 @@ def iterSites : List (Site × String) := [
 ]
 
 def storeSites : List (Site × String) := [
+  (("canid_builder.go", "CANIDBuilder.Operations", "hands-out-slice", "CANIDBuilder.operations | unconditional"), "handed out for reading: no function reachable from the read-only API appends to, sorts in place or stores through the result of this getter (such a write would be listed here as append-to-listing / in-place-sort-of-listing / store-through-listing); the mutators that change the field are outside the read-only API"),
+  (("message.go", "Message.Signals", "hands-out-slice", "SignalLayout.signals | unconditional"), "handed out for reading: no function reachable from the read-only API appends to, sorts in place or stores through the result of this getter (such a write would be listed here as append-to-listing / in-place-sort-of-listing / store-through-listing); the mutators that change the field are outside the read-only API"),
+  (("mux_signal.go", "MultiplexerSignal.GetSignalGroup", "hands-out-slice", "SignalLayout.signals | unconditional"), "handed out for reading: no function reachable from the read-only API appends to, sorts in place or stores through the result of this getter (such a write would be listed here as append-to-listing / in-place-sort-of-listing / store-through-listing); the mutators that change the field are outside the read-only API"),
+  (("node.go", "Node.Interfaces", "hands-out-slice", "Node.interfaces | unconditional"), "handed out for reading: no function reachable from the read-only API appends to, sorts in place or stores through the result of this getter (such a write would be listed here as append-to-listing / in-place-sort-of-listing / store-through-listing); the mutators that change the field are outside the read-only API"),
   (("node.go", "Node.errorf", "store", "Node.intErrNum | if len(n.interfaces) > 0 && n.intErrNum >= 0"), "guarded: executed only when intErrNum >= 0, which holds only between the assignment and this reset inside Node.UpdateName (a mutator)"),
-  (("signal_enum.go", "SignalEnum.errorf", "store", "SignalEnum.parErrID | if se.refs.size() > 0 && se.parErrID != \"\""), "guarded: executed only when parErrID != \"\", which holds only between a failed verifySize and this reset inside a mutator")
+  (("signal_enum.go", "SignalEnum.errorf", "store", "SignalEnum.parErrID | if se.refs.size() > 0 && se.parErrID != \"\""), "guarded: executed only when parErrID != \"\", which holds only between a failed verifySize and this reset inside a mutator"),
+  (("signal_layout.go", "SignalLayout.Filters", "hands-out-slice", "SignalLayout.filters | unconditional"), "handed out for reading: no function reachable from the read-only API appends to, sorts in place or stores through the result of this getter (such a write would be listed here as append-to-listing / in-place-sort-of-listing / store-through-listing); the mutators that change the field are outside the read-only API")
 ]
 
 /-- functions of the model files in which an error return is reachable after a mutation of model
